@@ -344,3 +344,17 @@ reg("C17", "c17",
     "objects and what the cache serves before and after; TLC accepts the recorded observations only if each satisfies its rule.",
     "In-process HTTP (httptest); gqlgen trusted. Expected operation counts are known for the nine current mutations; a new "
     "mutation is checked for the gate, authorship and locality.", "DESIGN.md section 4, C17")
+
+reg("C15", "c15",
+    "TLA+ spec HostRepo.tla (frame condition) checked by TLC; sessions of CLI and library actions on a prepared host repository "
+    "validated by TLC as traces",
+    "The specification says that no git-bug action changes `foreign` (every ref outside git-bug's namespaces, HEAD, the index, "
+    "the work tree, configuration outside the git-bug section, hooks and other files of .git), that every ref it creates lies in "
+    "refs/bugs, refs/identities or their remote mirrors, and that the object database stays acceptable to git fsck --strict. The "
+    "harness prepares a repository with branches (one named `bugs`), light and annotated tags, a dirty work tree, a staged file, "
+    "an untracked file, aliases and hooks, runs seeded sessions of the built binary (user new, bug new / comment / label / status / "
+    "title / rm / select / show, listings, push, pull from a second clone) and library calls storing attachments, and after "
+    "every action records the digest of the foreign state, the fsck verdict and the ref namespaces; at the end stock git pushes "
+    "the git-bug refs, garbage-collects, mirror-clones and fscks, and git-bug lists the bugs again. TLC accepts a session only "
+    "if every step satisfies the frame condition.",
+    "git fsck is the judge of object validity. No bridge configuration (needs the network).", "DESIGN.md section 4, C15")
